@@ -131,6 +131,11 @@ def run_items(items, job):
             R.skip("does-not-parse-or-scan(C01/C07)")
             continue
         _, base_toks, base_fails, _ = base
+        if any(t.token_name == "pragma" for t in base_toks):
+            # the document has no pragma line, yet the parser (an instance that parsed pragma-bearing
+            # documents before) attached a pragma token to it
+            R.viol.append([key, "pragma-token-on-document-without-pragma-lines", {"case": f"P:{ci}", "doc": doc, "pragma": "", "doc_with_pragma": doc}])
+            continue
         lines = doc.split("\n")
         r = PR(0x11000000 + ci)
         # insert *before an existing line* (between two lines or at the top); appending after the last
